@@ -384,7 +384,6 @@ def main(argv):
         p = write_replay(pid, tier, seed, "input", new_viol,
                          "implementation differs from std/the documented oracle on these inputs")
         violations.append((p, ""))
-    corr = [r for r in cmp_.impl_ne_model if not match_known(known, r) or r["impl"] != r["model"]]
     corr = [r for r in cmp_.impl_ne_model]
     if corr and not new_viol:
         # correspondence broken and no failing input in the whole transcript
